@@ -162,4 +162,17 @@ class C11(Spec):
         return genops.gen_bits(rng, tier)
 
 
-PROPS = {"C11": C11(), "C02": C02(), "C03": C03(), "C13": C13(), "C16": C16(), "C01": C01(), "C04": C04(), "C05": C05(), "C12": C12()}
+class C09(Spec):
+    lean_modules = ["Varint.Props.C09"]
+    diff_is_violation = True
+    rule = ("103 instantiations of varintPacked.h (every bit width 1..32 x slot width 8/16/32/64 in which an element "
+            "spans at most two slots, plus the compact / micro-promotion variants used in the tree); per instantiation: "
+            "element-isolation histories (set/incr/half on arbitrary prior contents, storage of exactly n slots), sorted "
+            "multiset histories (insertSorted/member/binarySearch/deleteMember/delete) and positional insert/delete "
+            "histories, every element compared with a reference array after every step")
+
+    def gen(self, rng, tier):
+        return genops.gen_packed(rng, tier)
+
+
+PROPS = {"C09": C09(), "C11": C11(), "C02": C02(), "C03": C03(), "C13": C13(), "C16": C16(), "C01": C01(), "C04": C04(), "C05": C05(), "C12": C12()}
